@@ -143,6 +143,7 @@ namespace c14 {
       const ipr::Name* first_name = nullptr;
       std::size_t first_named = 0;
       const ipr::Scope* sc = nullptr;
+      const ipr::Name* refused_name = nullptr;
       auto put_once = [&](const ipr::Type& t, std::size_t i) { if (lab.get(t) == "?") lab.put(t, "t" + std::to_string(i)); };
       auto name_for = [&](char ch, std::size_t i) -> const ipr::Name& {
          if (ch == 'r' and first_name != nullptr) return *first_name;
@@ -221,10 +222,23 @@ namespace c14 {
             types.push_back(&t);
          }
          sc = &static_cast<const ipr::Region&>(*r).bindings();
+         // a declaration the library REFUSED midway (an alias whose initializer has no type: the refusal comes after the scope has
+         // started entering the name), caught by the client: afterwards the scope answers for that name like for any other -- nothing
+         // found, or an overload set holding nothing -- and its members are the ones that were entered
+         if (pat.size() % 2 == 1) {
+            refused_name = &c.fresh_id();
+            try { r->scope.make_alias(*refused_name, *L.make_phantom()); refused_name = nullptr; }
+            catch (const std::logic_error&) { }
+         }
       }
       else
          return "bad-op";
       const ipr::Type& foreign = c.oty(0);
+      std::string refused_line;
+      if (refused_name != nullptr) {
+         const std::string a = ask(*sc, *refused_name, &foreign, c.oty(1), lab);
+         if (a != "-" and a != "o(!L;-;-)") refused_line = "\n@name_of_a_refused_declaration=0";
+      }
       std::string line = "byname=[";
       for (std::size_t i = 0; i < names.size(); ++i)
          line += (i ? "," : "") + (names[i] == nullptr ? std::string("~") : ask(*sc, *names[i], types[i], foreign, lab));
@@ -233,7 +247,7 @@ namespace c14 {
       bool members_ok = sc->elements().size() == names.size();
       std::size_t i = 0;
       for (auto& d : sc->elements()) { if (lab.get(d) != "e" + std::to_string(i)) members_ok = false; ++i; }
-      return line + "\n@members_after_lookups=" + (members_ok ? "1" : "0");
+      return line + "\n@members_after_lookups=" + (members_ok ? "1" : "0") + refused_line;
    }
 
    std::string seq_op(Ctx& c, const std::string& impl_name, const std::string& pattern, const std::string& view)
